@@ -443,7 +443,8 @@ def colliding_optionals(G, want_dup_empty=False):
                 if () in inner:
                     # repeating something that can be empty: the helper rule h: x | h x gets the alternative h: h twice
                     found[0] = True
-                return [(json.dumps(it),)] + ([()] if op == '*' else [])
+                # x* is compiled as an optional x+ (one helper rule for both)
+                return [(json.dumps(['q', it[1], '+', 0, 0]),)] + ([()] if op == '*' else [])
             lo, hi = it[3], it[4]
             inner = seqs_item(it[1])
             if hi >= 50:
